@@ -66,6 +66,9 @@ def cell_cases(draw, cell):
     # lhs
     if group == "S":
         lhs = ["var", env["scalars"][0]["name"]] if lk == "Variable" else ["bin", draw(st.sampled_from(["+", "*", "-"])), g.S(1), g.var_leaf()]
+        if lk == "scalar-expr" and draw(st.integers(0, 2)) == 0:
+            # a Parameter as coefficient: p*x + y (its Jacobian row is [p, 1]: variable-free but not constant)
+            lhs = ["bin", "+", ["bin", "*", ["param", "p"], g.var_leaf()], g.var_leaf()]
         shape = ()
     elif group == "V":
         vname = env["vectors"][0]["name"]
@@ -113,7 +116,8 @@ def cell_cases(draw, cell):
         rhs = ["arr2", g.matrix_data(shape[0], shape[1])]
     pts = draw(gen.points(all_var_names(env), k=3))
     tol = draw(st.sampled_from([1e-8, 1e-3, 0.5]))
-    return {"env": env, "cell": cell, "lhs": lhs, "rhs": rhs, "points": pts, "tol": tol}
+    return {"env": env, "cell": cell, "lhs": lhs, "rhs": rhs, "points": pts, "tol": tol,
+            "newp": draw(st.sampled_from([3.0, -2.0, 0.25]))}
 
 
 def strategy(tier, cell):
@@ -270,7 +274,20 @@ def check(case):
         if len(dicts) != n_el:
             return Result.violation("solver-constraint-count", f"{desc}: {len(dicts)} dicts for {n_el} elements", classes)
         order = [v.name for v in P.variables]
-        for pt in case["points"]:
+        uses_param = any(n_[0] == "param" for n_ in __import__("harness.algebras", fromlist=["walk"]).walk([case["lhs"], case["rhs"]]))
+        stages = [("initial", pv)] + ([("parameter-updated", {"p": case.get("newp", 3.0)})] if uses_param else [])
+        for stage, pv in stages:
+          if stage == "parameter-updated":
+            # the parameter changes and the SAME problem is solved again (its compiled constraint callables are cached)
+            b.params["p"].set(pv["p"])
+            classes.append("stage:parameter-updated")
+            try:
+                with seams.minimize_capture() as cap:
+                    P.solve(method="SLSQP", maxiter=1)
+            except Exception as ex:
+                return Result.violation(f"solve-setup-raises:{exc_label(ex)}", f"{desc} after p.set: {ex!r}", classes)
+            dicts = list(cap.calls[0].get("constraints") or ())[:n_el]
+          for pt in case["points"]:
             js = JetSc(order, pt, pv, second=False)
             alg = ElemAlg(js, env)
             l, r = _ref_elements(alg, js, case, None)
